@@ -896,7 +896,9 @@ where
         let mut res = glwe(n, rl, r);
         arbitrary_glwe(&mut res, VClass::Uniform, c.seed ^ 0xB);
         let q_ = m.glwe_pack_tmp_bytes(&res, &keys.automorphism_key_infos());
-        m.glwe_pack(&mut res, map, gap, &keys, sp("glwe_pack", q_, &mut scratch));
+        // the query sees the result and the keys only: inputs of another layout are a recorded finding of their own
+        let site = if al.b == rl.b && al.size == rl.size { "glwe_pack" } else { "glwe_pack[inputs_of_another_layout_than_the_result]" };
+        m.glwe_pack(&mut res, map, gap, &keys, sp(site, q_, &mut scratch));
         let mut bound = 0f64;
         for i in 0..(log_n - gap) {
             bound += 2.0 * al.unit() * so + ks_bound(&metas[&gals[i]], al, al, n, &l1s(&s), l1_sum(&s));
@@ -956,14 +958,10 @@ pub fn test_pack(c0: &Case) -> Verdict {
     adapt(&mut c);
     c.rank_in = c.rank_out;
     let streaming = c.op % 2 == 1;
-    if streaming && c.ab != c.rb && c.radix_mode & 4 == 0 {
-        // inputs in the accumulator radix (the documented use); the mixed-radix form is kept at a low rate below
-        c.ab = c.rb;
-    }
     if streaming && c.ab != c.rb {
-        // The packer converts a foreign-radix input only when it lands in an empty accumulator; an input that
-        // is combined with an occupied / flag-only accumulator is used without conversion (recorded finding).
-        // Everything that goes wrong in this configuration is reported under one signature.
+        // Inputs in another radix than the accumulators: until fa83095 the packer converted such an input only when
+        // it landed in an empty accumulator (recorded, now repaired).  Everything that goes wrong in this
+        // configuration is still reported under that one signature, so that a recurrence is recognised.
         let r = pzv_common::driver::guarded(|| with_backend!(c.be, c.log_n, |m| run_pack(m, &c)));
         return match r {
             Ok(Verdict::Fail { detail, .. }) => Verdict::fail("glwe_packer|input-radix-differs-from-accumulator|wrong-result", detail),
